@@ -178,7 +178,7 @@ func (p *Proof) scriptQ(o *Obligation, qfOnly bool) string {
 	asserts = append(asserts, o.Guard)
 	if !o.IsCover {
 		goal, sks := skolemizeGoal(o.Goal)
-		if len(sks) > 0 && len(sks) <= 4 {
+		if len(sks) > 0 && len(sks) <= 8 {
 			var inst []*Term
 			for _, a := range p.assumptions[:o.NAssume] {
 				if hasQuant(a, quantMemo) {
@@ -269,6 +269,9 @@ func discharge(results []*ProofResult, timeoutS int, all bool, verbose bool) {
 			defer wg.Done()
 			for j := range ch {
 				t1 := timeoutS
+				if j.o.TimeoutS > t1 && !j.o.IsCover {
+					t1 = j.o.TimeoutS
+				}
 				if len(j.o.Parts) > 0 && t1 > 4 {
 					t1 = 4
 				}
@@ -296,7 +299,11 @@ func discharge(results []*ProofResult, timeoutS int, all bool, verbose bool) {
 					allOK := true
 					var ms int64
 					for _, pt := range j.o.Parts {
-						b2, _, d2 := solveStaged(pt, timeoutS, all)
+						tp := timeoutS
+						if j.o.TimeoutS > tp {
+							tp = j.o.TimeoutS
+						}
+						b2, _, d2 := solveStaged(pt, tp, all)
 						ms += b2.Millis
 						if os.Getenv("GOVC_DEBUG") != "" {
 							fmt.Printf("   part %s: %s %s %dms\n", pt.Name, b2.Status, b2.Solver, b2.Millis)
@@ -361,10 +368,10 @@ func discharge(results []*ProofResult, timeoutS int, all bool, verbose bool) {
 					for _, c := range cands {
 						var b solveResult
 						if c.ScriptQF != "" {
-							b, _, _ = solveRace(c.ScriptQF, 3*timeoutS, false)
+							b, _, _ = solveRace(c.ScriptQF, 6*timeoutS+j.o.TimeoutS, false)
 						}
 						if b.Status != "unsat" {
-							b, _, _ = solveRace(c.Script, 3*timeoutS, false)
+							b, _, _ = solveRace(c.Script, 6*timeoutS+j.o.TimeoutS, false)
 						}
 						ms += b.Millis
 						solver = b.Solver
@@ -394,9 +401,6 @@ func discharge(results []*ProofResult, timeoutS int, all bool, verbose bool) {
 func solveStaged(o *Obligation, timeoutS int, all bool) (solveResult, []solveResult, bool) {
 	if o.ScriptQF != "" {
 		t := timeoutS
-		if t > 5 {
-			t = 5
-		}
 		b, rs, dis := solveRace(o.ScriptQF, t, all)
 		if b.Status == "unsat" || dis {
 			b.Solver += "(qf)"
